@@ -77,6 +77,28 @@ def run(ctx):
         ctx.count("acse-tensors")
         if bad:
             ctx.disagree("acse:wavefunction-route", f"{bad} elements differ from <[p^ q^ r s, H]>, e.g. {worst}", desc)
+        # ---- gradient of the 2-RDM along the residual, wavefunction route --------------------------
+        if case % 2 == 0:
+            try:
+                grad = numpy.asarray(bc.get_tpdm_grad_fqe(w, res, norb))
+                sterms = [(complex(res[i, j, k, l]), [(i, 1), (j, 1), (k, 0), (l, 0)]) for i, j, k, l in
+                          itertools.product(range(nso), repeat=4) if abs(res[i, j, k, l]) > 1e-12]
+                badg, worstg = 0, None
+                for p, q, r, s in itertools.product(range(nso), repeat=4):
+                    T = [(p, 1), (q, 1), (r, 0), (s, 0)]
+                    terms = [(c, T + t) for c, t in sterms] + [(-c, t + T) for c, t in sterms]
+                    e = parse_c(d.ask(f"expect {norb} {fmt_vec(ents)} {fmt_vec(ents)} {fmt_op(terms)}"))
+                    ex = complex(float(e[0]), float(e[1]))
+                    ctx.case(("tpdm-grad", case, p, q, r, s) if ex != 0 else None)
+                    if abs(grad[p, q, r, s] - ex) > 1e-7 * max(1.0, abs(ex)):
+                        badg += 1
+                        worstg = worstg or ((p, q, r, s), complex(grad[p, q, r, s]), ex)
+                ctx.count("tpdm-grad-tensors")
+                if badg:
+                    ctx.disagree("acse:tpdm-grad:wavefunction-route", f"{badg} elements of get_tpdm_grad_fqe differ from "
+                                 f"<[p^ q^ r s, S]>, S = sum res[ijkl] i^ j^ k l, e.g. {worstg}", desc)
+            except Exception as exc:
+                ctx.disagree(f"tpdm-grad-raises:{type(exc).__name__}", str(exc)[:300], desc)
         # ---- RDM-contraction route with exact RDMs from Spec ------------------------------------
         # spin-orbital tensors in OpenFermion (interleaved) indexing
         blk = lambda m: m // 2 + norb * (m % 2)
